@@ -7,7 +7,7 @@ import numpy as np
 from vlib import core, dom, rescorr
 
 ID = "C17"
-PROPS = ["C17_shift.v", "C01_matrix.v", "C04_step_system.v"]
+PROPS = ["C17_shift.v", "C17_prelude.v", "C01_matrix.v", "C04_step_system.v"]
 GEN = ["reservoir"]
 
 
@@ -37,7 +37,10 @@ def impl_checks(ctx, cases):
             if c["kind"] == "single":
                 a_ = 1 / (np.asarray(c["table"]["compressibility"]) * np.asarray(c["table"]["viscosity"]))
                 spread = float(a_.max() / a_.min())  # conditioning of the step matrix: solver error ~ spread * rtol
-            tol = (1e-9 + 40 * eps * abs(shift) / dtmin) * max(1.0, spread)
+            # ... and two solves of the same step agree only to (solver rtol 1e-13) x (condition ~ 1 + 4 k_max) per step
+            inv_dx2 = float(c["nx"] - 1) ** 2 if c["kind"] == "ideal" else float(c["nx"]) ** 2
+            kmax = float(np.diff(t).max()) * inv_dx2 * max(1.0, spread)
+            tol = (1e-9 + 40 * eps * abs(shift) / dtmin) * max(1.0, spread) + 1e-12 * (1 + 4 * kmax) * len(t)
             if "field" not in sh:
                 bad("shifted time grid makes the simulation fail", c2, dict(shift=shift, error=sh.get("error")))
                 continue
@@ -117,6 +120,10 @@ def run(ctx):
         if r[5] != impl_err:
             ctx.violations.append(dict(what="model and implementation disagree on whether the call raises", key="raise",
                                        input=rescorr.replay_payload(shifted[k]), observed=dict(model=r[5], impl=impls[k].get("error"))))
+        elif shifted[k].get("table_kind") == "random":
+            # tables whose diffusivity jumps by decades between neighbouring rows make the level-to-level map so sensitive that two
+            # accurate trajectories separate (DESIGN 11.9); for them the tie is the per-step residual (C04), not the trajectory
+            continue
         elif not (r[0] <= 1e-6 and r[1] <= 1e-6):
             ctx.violations.append(dict(what="implementation on a shifted grid differs from the (shift-invariant) model", key="corr",
                                        input=rescorr.replay_payload(shifted[k]), observed=dict(field=r[0], rf=r[1])))
